@@ -213,6 +213,7 @@ class State:
         s.acc = []         # (kind, off, count, span, J?) pending obligations
         s.moves = []       # block moves inside the buffer in execution order: (src offset, dst offset, count)
         s.pre_moves = []   # every block move made outside loops since the window opened (kept across loops)
+        s.writes0 = []     # offsets of single-cell raw writes (outside loops, or in the first iteration of a loop that certainly runs)
     def fork(s):
         t = State()
         t.env = dict(s.env); t.fields = dict(s.fields); t.sub = s.sub.clone()
@@ -220,6 +221,8 @@ class State:
         t.acc = list(s.acc)
         t.moves = list(s.moves)
         t.pre_moves = list(s.pre_moves)
+        t.writes0 = list(s.writes0)
+        t.tail_skip = getattr(s, "tail_skip", False)
         return t
 
 
@@ -468,6 +471,8 @@ class Sym:
                 s.access(P, "r", args[ri], cnt, t["span"], "%s source" % name)
             if wi is not None:
                 s.access(P, "w", args[wi], cnt, t["span"], "%s destination" % name)
+                if kind != "rw" and isinstance(args[wi], Ptr):
+                    P.writes0.append(args[wi].off)
             if kind == "rw" and isinstance(args[ri], Ptr) and isinstance(args[wi], Ptr) and isinstance(cnt, Poly):
                 mv = (args[ri].off, args[wi].off, cnt)
                 if P.moves:
@@ -496,8 +501,8 @@ class Sym:
                         # shifted at all, only if the new cells were written at the very end.  Decided structurally: some
                         # block move made before the loops ends exactly at the new length.
                         grow = args[1] - P.L0
-                        if P.sub.sign(-grow)[0] != "nonneg" and not (grow == ZERO):
-                            reaches = any((dst + cnt) == args[1] for (src, dst, cnt) in P.pre_moves)
+                        if P.sub.sign(-grow)[0] != "nonneg" and not (grow == ZERO) and not getattr(P, "tail_skip", False):
+                            reaches = any((dst + cnt) == args[1] for (src, dst, cnt) in P.pre_moves) or any(w == P.L0 for w in P.writes0)      # .. or the new cells are written right behind the old end (append, then rotate)
                             P.acc.append(("TAIL", "a block move carries the old tail to the end of the grown buffer (new length %r)" % (args[1],), ONE if reaches else -ONE, t["span"]))
                     P.vlen = args[1]
                 return [(P, Tup([]))]
@@ -725,7 +730,9 @@ class Sym:
             for l in carried:
                 v = P.env[l]
                 if delta[l] is None:
-                    QB.env[l] = Unk("widened")
+                    # no loop-invariant increment: unknown in a generic iteration, but in the FIRST one it still holds its value
+                    # from before the loop
+                    QB.env[l] = v if Jname == "first" else Unk("widened")
                 else:
                     off0 = v.off if isinstance(v, Ptr) else v
                     cur = off0 + Jval * delta[l]
@@ -746,6 +753,9 @@ class Sym:
                     s.obls.append(((a[0], "[%s iteration of the loop, n = %r] %s" % (Jname, n, a[1]), a[2], a[3]), O.sub.clone()))
             if Jname == "last":
                 last_moves = [list(O.moves) for O in outsB]
+            else:
+                first_moves = [m for O in outsB for m in O.moves if m not in P.moves]
+                first_writes = [w for O in outsB for w in O.writes0 if w not in P.writes0]
         # order of block moves across the back edge: iteration J followed by J+1, checked at both ends (J = 0 and J = n-2)
         for Jname, Ja, Jb in (("first two iterations", ZERO, ONE), ("last two iterations", n - ONE - ONE, n - ONE)):
             ends = []
@@ -789,6 +799,10 @@ class Sym:
                 QE.env[l] = Ptr(fin) if isinstance(v, Ptr) else fin
         if rl is not None:
             QE.env[rl] = RangeV(rng.b, rng.b)
+        # the block moves of the first iteration count as "made" for the tail-shift clause when the loop certainly runs
+        # (a loop that may not run at all is given the benefit of the doubt: its trip count is then the number of new cells)
+        QE.writes0 = list(P.writes0) + list(locals().get("first_writes") or [])
+        QE.pre_moves = list(P.pre_moves) + list(locals().get("first_moves") or [])
         # the move that precedes the code after the loop: the last iteration's, when the loop certainly ran
         lm = [m for m in (locals().get("last_moves") or []) if m]
         if lm and P.sub.sign(n - ONE)[0] == "nonneg":
